@@ -53,6 +53,12 @@ type Round struct {
 	wDone  map[int]bool
 	RelSeq    int64 // sequence number of the first event after the release (for the oracle)
 	MaxHeld   int
+	// staged release (waiter rounds): first one held call is released; the waiter must get its instance
+	// while the others are still held; only then (or when nothing can move any more) the rest is released
+	Staged   bool
+	First    int  // index in Calls of the call released first
+	phase    int  // 0: holding, 1: one released, 2: all released
+	Starved  bool // the rest had to be released because nothing could move although an instance had come back
 	ExtraGate int64 // opened as soon as Need calls are parked (0: none)
 	FullSeq   int64 // number of events logged when Need calls were parked for the first time (-1: never)
 }
@@ -144,11 +150,54 @@ func (ct *controller) afterStep(r *simrt.Run) {
 		if ok {
 			rd.released = true
 			rd.RelSeq = int64(len(r.Events))
+			if rd.Staged && len(rd.Waiters) > 0 && !rd.wDone[rd.Waiters[0]] {
+				rd.phase = 1
+				r.OpenGate(holdGate(rd.Calls[rd.First]))
+				continue
+			}
+			rd.phase = 2
 			for _, c := range rd.Calls {
 				r.OpenGate(holdGate(c))
 			}
 		}
 	}
+	for _, rd := range ct.rounds {
+		if rd.phase == 1 && rd.wDone[rd.Waiters[0]] {
+			rd.phase = 2
+			for _, c := range rd.Calls {
+				r.OpenGate(holdGate(c))
+			}
+		}
+	}
+}
+
+// onQuiescent: nobody can move and only hold gates are closed.  In a staged round this means that the
+// waiter did not get the instance that had been handed back.
+func (ct *controller) onQuiescent(r *simrt.Run) bool {
+	for _, rd := range ct.rounds {
+		// a waiter that blocks instead of spinning never collects its K turns: when nothing can move,
+		// every instance is held and the waiter has arrived, start the staged release right away
+		if rd.phase == 0 && !rd.released && rd.Staged && rd.held >= rd.Need && len(rd.Waiters) > 0 {
+			if _, started := rd.wTask[rd.Waiters[0]]; started && !rd.wDone[rd.Waiters[0]] {
+				rd.released = true
+				rd.RelSeq = int64(len(r.Events))
+				rd.phase = 1
+				r.OpenGate(holdGate(rd.Calls[rd.First]))
+				return true
+			}
+		}
+	}
+	for _, rd := range ct.rounds {
+		if rd.phase == 1 {
+			rd.phase = 2
+			rd.Starved = true
+			for _, c := range rd.Calls {
+				r.OpenGate(holdGate(c))
+			}
+			return true
+		}
+	}
+	return false
 }
 
 // W2Run carries everything the pool oracles need.
@@ -411,6 +460,8 @@ func RunW2(opt *W2Opt, plan, sched *simrt.Source, trace bool) *RunOut {
 		waiterRound = &Round{Need: w.Max, K: int64(20 + g.Intn(200)), wTask: map[int]int32{}, wBase: map[int]int64{}, FullSeq: -1}
 		if g.Pct(70) {
 			waiterRound.ExtraGate = simrt.HoldGateBit | 1<<40
+			waiterRound.Staged = g.Pct(70)
+			waiterRound.First = g.Intn(w.Max)
 		}
 		for i := 0; i < w.Max; i++ {
 			c := newCall(100+i, []int{MExecute, MConcurrent, MMix, MInverseMix, MPoolEMMulti})
@@ -526,6 +577,7 @@ func RunW2(opt *W2Opt, plan, sched *simrt.Source, trace bool) *RunOut {
 	run.Handler = ct.handler
 	run.OnEvent = ct.onEvent
 	run.AfterStep = ct.afterStep
+	run.OnQuiescent = ct.onQuiescent
 	run.Execute(func() {
 		var err error
 		pool, err = engine.NewGenginePool(int64(w.Min), int64(w.Max), em, text, nil)
